@@ -261,6 +261,18 @@ where
 
 //=================================================================
 
+// verification hooks: compiled only with `--cfg probminhash_verif`
+#[cfg(probminhash_verif)]
+impl<D> ProbMinHash3aSha<D>
+where
+    D: Clone + Eq + Debug + Sig,
+{
+    /// leaves of the max value tracker (current minimal hash value per position)
+    pub fn verif_registers(&self) -> Vec<f64> {
+        (0..self.m).map(|k| self.maxvaluetracker.get_value(k)).collect()
+    }
+}
+
 #[cfg(test)]
 mod tests {
 
